@@ -207,6 +207,7 @@ class SpecEnv:
             "implies": lambda a, b: (not a) or b, "iff": lambda a, b: bool(a) == bool(b),
             "wf_map": lambda m: True, "keys_of": lambda m: list(m.keys()),
             "ite": lambda c, a, b: a if c else b, "allocated": lambda o: True,
+            "str_is_int": _str_is_int, "str_int": lambda s: int(s),
             "__snap": self.snapshot,
         }
         for cname in ("TestNode", "TestWorker", "TestSwarm", "TestObject", "NetObject", "VMObject", "ImageObject",
@@ -216,6 +217,14 @@ class SpecEnv:
                 ns[cname] = c
         ns.update(self.params)
         return ns
+
+
+def _str_is_int(s):
+    try:
+        int(s)
+        return True
+    except (ValueError, TypeError):
+        return False
 
 
 class OldRewriter(ast.NodeTransformer):
